@@ -379,6 +379,9 @@ pub trait Suite: Sync {
     /// serde forms of the wrapper key types
     fn ke_sk_serde(&self, sk: &Blob) -> R<Vec<u8>>;
     fn ke_pk_serde(&self, pk: &Blob) -> R<Vec<u8>>;
+    /// KeGroup::public_key / diffie_hellman on RAW private-key bytes (Curve25519 only; empty result = not applicable)
+    fn ke_raw_pk(&self, sk: &[u8]) -> R<Vec<u8>>;
+    fn ke_raw_dh(&self, sk: &[u8], pk: &[u8]) -> R<Vec<u8>>;
     /// the serde form the implementation itself produces for a key wrapper (native bytes in, blob in `codec` out)
     fn ke_sk_encode(&self, sk: &[u8], codec: Codec) -> R<Blob>;
     fn ke_pk_encode(&self, pk: &[u8], codec: Codec) -> R<Blob>;
@@ -680,6 +683,12 @@ macro_rules! suite {
                 };
                 Ok(k.serialize().to_vec())
             }
+            fn ke_raw_pk(&self, sk: &[u8]) -> R<Vec<u8>> {
+                Ok(<$ke as RawSk>::raw_pk(sk).unwrap_or_default())
+            }
+            fn ke_raw_dh(&self, sk: &[u8], pk: &[u8]) -> R<Vec<u8>> {
+                Ok(<$ke as RawSk>::raw_dh(sk, pk).unwrap_or_default())
+            }
             fn ke_sk_encode(&self, sk: &[u8], codec: Codec) -> R<Blob> {
                 let k = PrivateKey::<$ke>::deserialize(sk).map_err(ie)?;
                 save(&k, codec, |x| x.serialize().to_vec())
@@ -781,6 +790,32 @@ macro_rules! remote_impl {
             }
         }
     };
+}
+
+/// groups whose private-key type is plain bytes (Curve25519: `type Sk = [u8; 32]`) can be driven with RAW, possibly
+/// unclamped keys through the public KeGroup functions, bypassing the strict decoder; other groups: not applicable
+pub trait RawSk: KeGroup {
+    fn raw_pk(_sk: &[u8]) -> Option<Vec<u8>> {
+        None
+    }
+    fn raw_dh(_sk: &[u8], _pk: &[u8]) -> Option<Vec<u8>> {
+        None
+    }
+}
+impl RawSk for opaque_ke::Ristretto255 {}
+impl RawSk for p256::NistP256 {}
+impl RawSk for p384::NistP384 {}
+impl RawSk for p521::NistP521 {}
+impl RawSk for opaque_ke::Curve25519 {
+    fn raw_pk(sk: &[u8]) -> Option<Vec<u8>> {
+        let k: [u8; 32] = sk.try_into().ok()?;
+        Some(<Self as KeGroup>::serialize_pk(<Self as KeGroup>::public_key(k)).to_vec())
+    }
+    fn raw_dh(sk: &[u8], pk: &[u8]) -> Option<Vec<u8>> {
+        let k: [u8; 32] = sk.try_into().ok()?;
+        let p = <Self as KeGroup>::deserialize_pk(pk).ok()?;
+        Some(<Self as KeGroup>::diffie_hellman(p, k).to_vec())
+    }
 }
 
 type Ris = opaque_ke::Ristretto255;
